@@ -74,6 +74,72 @@ def props_update_pledge_total(E, res):
             ('network pledge total never negative', tot1 >= 0)]
 
 
+# ---- State::cleanup_expired_pre_commits: deposits of expired pre-commitments leave the deposit total exactly once -----------
+# CUT (declared): BitFieldQueue::pop_until -> an arbitrary set of n distinct expired sector numbers.
+
+def run_cleanup(n):
+    def run(E):
+        rt, rtref = new_rt(E)
+        ST = SF()
+        st = StructV('State', {}, lazy='st')
+        pcd = fget(E, st, ST['pre_commit_deposits'], TOKEN).v
+        E.ctx.assume(pcd >= 0)
+        nums = [E.materialize('u64', 'expired%d' % i).v for i in range(n)]
+        for i in range(n):
+            for j in range(i + 1, n):
+                E.ctx.assume(nums[i] != nums[j])
+        E.cuts['BitFieldQueue::pop_until'] = lambda E2, c: ok(StructV('tuple', {0: models_fvm.BitSetV(nums), 1: E2.ctx.fresh_bool('queue_modified')}), c.dest_ty)
+        PC = Fields('actors/miner/src/types.rs', 'SectorPreCommitOnChainInfo')
+        base = 'map(st.%d)' % ST['pre_committed_sectors']
+        seen = []
+
+        def hook(E2, m, kt, val):
+            if m.base == base:
+                d = fget(E2, val, PC['pre_commit_deposit'], TOKEN).v
+                seen.append(d)
+                # C03 invariant: the deposit total covers the deposits of the pre-commitments on record
+                E2.ctx.assume(z3.And(d >= 0, pcd >= sum(seen)))
+            return None
+        E.ctx.env['map_value_hook'] = hook
+        cell = Cell(st, 'st')
+        E.ctx.env.update(dict(pcd=pcd, nums=nums, cell=cell, base=base))
+        fn = find_fn(E, MINER, 'cleanup_expired_pre_commits')
+        pol = E.do_call(None, '<MockRT as Runtime>::policy', [rtref], '&Policy')
+        return E.run_function(fn, [RefV(cell, (), True), pol, RefV(Cell(OpaqueV('store'), 'store'), ()), E.materialize('i64', 'epoch')]), rt
+    return run
+
+
+def props_cleanup(E, res):
+    env = res.ctx.env
+    ctx = res.ctx
+    if res.kind != 'return':
+        return [('no panic (%s)' % str(res.info)[:60], False)]
+    if is_err(res.value):
+        return [('cleaning up expired pre-commitments of a consistent state does not fail', False)]
+    ST = SF()
+    PC = Fields('actors/miner/src/types.rs', 'SectorPreCommitOnChainInfo')
+    burn = big(E, res.value.fields[('Ok', 0)])
+    st1 = env['cell'].value
+    pcd1 = fget(E, st1, ST['pre_commit_deposits'], TOKEN).v
+    exp = 0
+    P = []
+    pm = heap_get(E, fget(E, st1, ST['pre_committed_sectors'], CID))
+    for nmb in env['nums']:
+        bp, bv = base_lookup(E, env['base'], ('int', nmb))
+        if bp is None:
+            P.append(('every expired sector number is looked up', False))
+            continue
+        if bp is True:
+            exp = exp + fget(E, E.deref(bv), PC['pre_commit_deposit'], TOKEN).v
+            gone = isinstance(pm, MapM) and final_lookup(E, pm, ('int', nmb))[0] is False
+            P.append(('an expired pre-commitment on record is deleted', gone))
+    P.append(('the deposit burnt is the sum of the deposits of the expired pre-commitments still on record, each once', burn == exp))
+    P.append(('the deposit total falls by exactly that amount and stays non-negative', z3.And(pcd1 == env['pcd'] - exp, pcd1 >= 0)))
+    if isinstance(pm, MapM):
+        P.append(('nothing else is deleted', len([1 for (k, pres, v, _) in pm.over if pres is False]) <= len(env['nums'])))
+    return P
+
+
 def build(tier):
     O = miner_money.build_for('C03', tier)
     for o in C14.build(tier):
@@ -83,6 +149,10 @@ def build(tier):
                         descr='initial pledge total moves by exactly the amount; never negative', bounds='amount any sign', max_paths=200))
     O.append(Obligation('miner.State::add_pre_commit_deposit', run_ledger('add_pre_commit_deposit'), props_ledger('add_pre_commit_deposit', 'pcd'),
                         descr='pre-commit deposit total moves by exactly the amount; never negative', bounds='amount any sign', max_paths=200))
+    for n in ([1, 2] if tier == 'quick' else [1, 2, 3]):
+        O.append(Obligation('miner.State::cleanup_expired_pre_commits[expired=%d]' % n, run_cleanup(n), props_cleanup,
+                            descr='expired pre-commitments still on record are deleted; their deposits (each once) are returned for burning and leave the deposit total',
+                            bounds='%d expired sector number(s); pre-commit map symbolic under the deposit invariant; CUT: BitFieldQueue::pop_until' % n, max_paths=20000))
     O.append(Obligation('power.update_pledge_total', run_update_pledge_total, props_update_pledge_total,
                         descr='network pledge total += delta for miners with a claim; negative total rejected', bounds='one call', max_paths=5000))
     return O
